@@ -61,7 +61,10 @@ contract(SC, scenarios=[("instance.", setup_cfg("instance")), ("config_only.", s
 # ---- _setup_convergence_testing (C08 threshold, C20 gamma boundary, format)
 from pyvc.contract import REGISTRY
 fmt = REGISTRY["mdpax.utils.logging.get_convergence_format"]
-fmt.returns = lambda c: FormatSpec(z3.Int("decimals!ret"))       # callers only need "a valid spec"; validity is this function's own obligation
+def _fmt_returns(c):
+    d = z3.Int("decimals!ret")        # callers are told exactly what is proved about the body: SOME spec with 0 <= decimals <= 10
+    return FormatSpec(z3.If(d < 0, 0, z3.If(d > 10, 10, d)))
+fmt.returns = _fmt_returns
 VISC = "mdpax.solvers.value_iteration.ValueIteration._setup_convergence_testing"
 def setup_sct(test, dom):
     def setup(I):
